@@ -134,6 +134,22 @@ def r10_2_3_4(prog, rep, fields):
                                 obl(rep, f, cmp_, "R10.2", e.value in declared, f"literal {e.value!r} compared with the configuration is a declared value")
     if n < 4:
         raise AnalysisError(f"R10.2: only {n} comparisons with config['EVAL_UNSEEN_CATEGORIES'] found (expected >= 4)")
+    # 'warning' mode must be heard: nothing in the package filters or swallows warnings
+    muted = []
+    for q, f in sorted(prog.functions.items()):
+        if f.parent is not None:
+            continue
+        for c in calls_in(f.node, local=False):
+            d = dotted(c.func) or ""
+            if d.split(".")[-1] in ("catch_warnings", "simplefilter", "filterwarnings", "resetwarnings") and d.split(".")[0] in ("warnings", "catch_warnings", "simplefilter", "filterwarnings"):
+                muted.append((f, c))
+            if d in ("np.errstate", "np.seterr") or d.endswith(".showwarning"):
+                muted.append((f, c))
+    for f, c in muted:
+        obl(rep, f, c, "R10.2", False, f"`{short(c, 60)}`", "",
+            "warnings are filtered / captured here: in 'warning' mode an unseen level reached through this code is zeroed without the documented warning")
+    anchor = prog.fn("terms.variable.Variable.eval_new_data_categoric")
+    obl(rep, anchor, anchor.node, "R10.2", not muted, "no code of the package filters, captures or resets warnings", f"{len(prog.functions)} functions scanned")
     sibs = ["terms.variable.Variable.eval_new_data_categoric", "terms.call.Call.eval_new_data_categoric"]
     sums = []
     for q in sibs:
